@@ -1,7 +1,118 @@
 import Driver.Common
-open Drv
+import KatdalModel.Model.ChunkStore
+import KatdalModel.Generated.TablesC08
+open Np Drv ChunkStore
 
-/-- stub driver for C08: replaced when the property's model lands -/
-def step (_line : String) : String := "bad-op"
+namespace DrvC08
 
-def main : IO Unit := Drv.loop step
+def hexVal (c : Char) : Option Nat :=
+  if '0' ≤ c ∧ c ≤ '9' then some (c.toNat - '0'.toNat)
+  else if 'a' ≤ c ∧ c ≤ 'f' then some (c.toNat - 'a'.toNat + 10)
+  else none
+
+def parseHexAux : List Char → Option Bytes
+  | [] => some []
+  | a :: b :: t => do
+    let x ← hexVal a; let y ← hexVal b
+    let r ← parseHexAux t
+    pure (UInt8.ofNat (16 * x + y) :: r)
+  | _ => none
+
+/-- `-` = empty -/
+def parseHex (s : String) : Option Bytes := if s = "-" then some [] else parseHexAux s.toList
+
+def hexDigit (n : Nat) : Char := if n < 10 then Char.ofNat (48 + n) else Char.ofNat (87 + n)
+
+def showHex (b : Bytes) : String :=
+  if b.isEmpty then "-" else
+  String.ofList (b.foldr (fun x acc => hexDigit (x.toNat / 16) :: hexDigit (x.toNat % 16) :: acc) [])
+
+def showErr (e : CErr) : String := s!"E:{e.name}"
+
+/-- header oracle: `bad` | `ok:<itemsize>:<count>:<hasobj>` -/
+def parseOracle (s : String) : Option (Option Hdr) :=
+  match s.splitOn ":" with
+  | ["bad"] => some none
+  | ["ok", isz, cnt, ob] => do
+    let isz ← isz.toNat?; let cnt ← cnt.toNat?
+    pure (some ⟨[], [cnt], false, ob = "1", isz⟩)
+  | _ => none
+
+def mroOf (c : String) : List String := (TablesC08.excMro.lookup c).getD [c]
+
+def mapOf (store : String) : Option (List (String × String)) :=
+  match store with
+  | "base" => some TablesC08.baseErrorMap
+  | "npy" => some TablesC08.npyErrorMap
+  | "dict" => some TablesC08.dictErrorMap
+  | "s3" => some TablesC08.s3ErrorMap
+  | _ => none
+
+/-- `O` | `W:<hex>` | `T:<n>` | `C` | `R` on temp name 1 / final name 2 -/
+def parseOp (s : String) : Option (FsOp Nat) :=
+  match s.splitOn ":" with
+  | ["O"] => some (.openTrunc 1)
+  | ["W", h] => (parseHex h).map (.write 1)
+  | ["T", n] => n.toNat?.map (.ftruncate 1)
+  | ["C"] => some .close
+  | ["R"] => some (.rename 1 2)
+  | _ => none
+
+def showOpt (o : Option Bytes) : String := match o with | none => "none" | some b => showHex b
+
+/-- requests:
+    read <hex> <sched> <oracle>        -> `ok <bodyhex>` | E:ValueError | E:IncompleteRead
+    classify <store> <class>           -> class leaving `_standard_errors`
+    swallow <default|placeholder> <class> -> swallowed | raised
+    noraise <class>                    -> returned | raised
+    status <code> <ignored>            -> class | none
+    fs <oldhex|none> <ops>             -> `<word|prefix|no> tmp=<..> fin=<..>`
+    putops <direct> <pieces hex,..> <pad> -> the model's op sequence -/
+def step (line : String) : String :=
+  match line.splitOn " " with
+  | ["read", hx, sch, orc] =>
+    match parseHex hx, (if sch = "-" then some [] else parseNatList sch), parseOracle orc with
+    | some data, some sched, some orc =>
+      match readArray (fun _ => orc) ⟨data, sched⟩ with
+      | .ok (_, body) => s!"ok {showHex body}"
+      | .error e => showErr e
+    | _, _, _ => "bad-op"
+  | ["classify", store, cls] =>
+    match mapOf store with
+    | some m => standardised m (mroOf cls)
+    | none => "bad-op"
+  | ["swallow", which, cls] =>
+    let catches := if which = "default" then TablesC08.defaultCatches else TablesC08.placeholderCatches
+    match swallow catches mroOf () (.error cls) with
+    | .ok _ => "swallowed"
+    | .error _ => "raised"
+  | ["noraise", cls] =>
+    match noraise TablesC08.noraiseCatches mroOf (.error cls) with
+    | .ok _ => "returned"
+    | .error _ => "raised"
+  | ["status", code, ign] =>
+    match code.toNat?, (if ign = "-" then some [] else parseNatList ign) with
+    | some c, some ig => (httpStatusError c ig).getD "none"
+    | _, _ => "bad-op"
+  | "fs" :: old :: ops =>
+    match (if old = "none" then some none else (parseHex old).map some), ops.mapM parseOp with
+    | some old, some ops =>
+      let fs0 : FS Nat := fun p => if p = 2 then old else none
+      let fs1 := runOps ops fs0
+      let kind := if isPutWord 1 2 ops then "word" else if isPutPrefix 1 ops then "prefix" else "no"
+      s!"{kind} tmp={showOpt (fs1 1)} fin={showOpt (fs1 2)}"
+    | _, _ => "bad-op"
+  | ["putops", direct, pieces, pad] =>
+    match (if pieces = "-" then some [] else (pieces.splitOn ",").mapM parseHex), pad.toNat? with
+    | some ps, some pad =>
+      let ops : List (FsOp Nat) :=
+        if direct = "1" then putOpsDirect 1 2 ps.flatten pad else putOpsBuffered 1 2 ps
+      " ".intercalate (ops.map fun o => match o with
+        | .openTrunc _ => "O" | .write _ b => s!"W:{showHex b}" | .ftruncate _ n => s!"T:{n}"
+        | .close => "C" | .rename _ _ => "R" | .junk _ _ => "J")
+    | _, _ => "bad-op"
+  | _ => "bad-op"
+
+end DrvC08
+
+def main : IO Unit := Drv.loop DrvC08.step
